@@ -333,4 +333,156 @@ theorem lax_from_ip_refines (g : Mem) (hg : ByteMem g) (n : Nat) :
       rw [laxSliceIp_ok Cur.new g 0 n r hd, laxIpCont_net]
       rfl
 
+theorem extsLoop_stop_layer (g : Mem) (sm : Bool) (l0 nh : Nat) (frag : Bool) (slots : ExtSlots) (o l : Nat)
+    (e : ExtErr) (ly : Layer) (h : (extsLoop g sm l0 nh frag slots o l).stop = some (e, ly)) : ly ≠ .ipHeader := by
+  fun_induction extsLoop g sm l0 nh frag slots o l <;> simp_all [extsFail, extsDone, rawLayer]
+  all_goals (try (obtain ⟨_, rfl⟩ := h))
+  all_goals (try (split <;> simp))
+  all_goals (try simp)
+
+theorem extsWalk_stop_layer (g : Mem) (sm : Bool) (nh o l : Nat)
+    (e : ExtErr) (ly : Layer) (h : (extsWalk g sm nh o l).stop = some (e, ly)) : ly ≠ .ipHeader := by
+  unfold extsWalk at h
+  split at h
+  · split at h
+    · simp at h; rw [← h.2]; simp
+    · exact extsLoop_stop_layer _ _ _ _ _ _ _ _ _ _ h
+  · exact extsLoop_stop_layer _ _ _ _ _ _ _ _ _ _ h
+theorem ipv4AfterHeaderLax_stop_layer (g : Mem) (o l hl : Nat) (e : PErr) (ly : Layer)
+    (h : (ipv4AfterHeaderLax g o l hl).2 = some (e, ly)) : ly ≠ .ipHeader := by
+  unfold ipv4AfterHeaderLax at h
+  simp only at h
+  split at h
+  · split at h
+    · simp at h
+    · rename_i e' _
+      cases e' <;> (simp at h; rw [← h.2]; simp)
+  · simp at h
+
+theorem ipv6AfterHeaderLax_stop_layer (g : Mem) (sm : Bool) (o l : Nat) (e : PErr) (ly : Layer)
+    (h : (ipv6AfterHeaderLax g sm o l).2 = some (e, ly)) : ly ≠ .ipHeader := by
+  unfold ipv6AfterHeaderLax at h
+  simp only at h
+  split at h
+  · simp at h
+  · rename_i e' ly' hst
+    simp at h
+    rw [← h.2]
+    exact extsWalk_stop_layer _ _ _ _ _ _ _ hst
+  · rename_i e' ly' _ hst
+    simp at h
+    rw [← h.2]
+    exact extsWalk_stop_layer _ _ _ _ _ _ _ hst
+
+theorem laxIpSlice_stop_layer (g : Mem) (o l : Nat) (r : IpR × Option (PErr × Layer)) (e : PErr) (ly : Layer)
+    (h : laxIpSliceFromSlice g o l = .ok r) (hs : r.2 = some (e, ly)) : ly ≠ .ipHeader := by
+  unfold laxIpSliceFromSlice at h
+  split at h
+  · cases h
+  · cases h; exact ipv4AfterHeaderLax_stop_layer _ _ _ _ _ _ hs
+  · cases h; exact ipv6AfterHeaderLax_stop_layer _ _ _ _ _ _ hs
+
+theorem laxSliceTransport_stop_layer (c : Cur) (g : Mem) (pl : IpPl) (e : PErr) (ly : Layer)
+    (hc : c.r.stop = none) (h : (c.laxSliceTransport g pl).stop = some (e, ly)) : ly ≠ .ipHeader := by
+  unfold Cur.laxSliceTransport at h
+  simp only at h
+  repeat' split at h
+  all_goals (first | (simp [hc] at h; done) | (simp at h; rw [← h.2]; simp))
+
+theorem laxIpCont_stop_layer (c : Cur) (g : Mem) (o : Nat) (r : IpR × Option (PErr × Layer)) (e : PErr) (ly : Layer)
+    (hc : c.r.stop = none) (hr : ∀ e ly, r.2 = some (e, ly) → ly ≠ .ipHeader)
+    (h : (laxIpCont c g o r).stop = some (e, ly)) : ly ≠ .ipHeader := by
+  obtain ⟨ip, stop⟩ := r
+  unfold laxIpCont at h
+  cases stop with
+  | none => exact laxSliceTransport_stop_layer _ g ip.pl e ly (by simp [hc]) h
+  | some x =>
+    obtain ⟨e', ly'⟩ := x
+    have := hr e' ly' rfl
+    cases e' <;> (simp at h; rw [← h.2]; exact this)
+
+/-- a lax `from_ip` result that is `Ok` never has a stop error at the first (IP) header -/
+theorem laxSlicedFromIp_stop_layer (g : Mem) (n : Nat) (m : Packet) (e : PErr) (ly : Layer)
+    (h : laxSlicedFromIp g n = .ok m) (hs : m.stop = some (e, ly)) : ly ≠ .ipHeader := by
+  have heq := laxSlicedFromIp_eq g n
+  cases hd : laxIpSliceFromSlice g 0 n with
+  | error e' => rw [hd] at heq; simp only at heq; rw [heq] at h; cases h
+  | ok r =>
+    rw [hd] at heq
+    simp only at heq
+    rw [heq] at h
+    cases h
+    rw [laxSliceIp_ok Cur.new g 0 n r hd] at hs
+    exact laxIpCont_stop_layer Cur.new g 0 r e ly rfl (fun e ly h => laxIpSlice_stop_layer g 0 n r e ly hd h) hs
+
+theorem stopLayer_first (ly : Layer) (u : Unit_) (h : StopLayer ly u)
+    (hu : u = .ipAny ∨ u = .ipv4Header ∨ u = .ipv6Header) : ly = .ipHeader := by
+  rcases hu with rfl | rfl | rfl <;> cases ly <;> simp_all [StopLayer]
+
+/-- if lax `from_ip` is `Ok`, a fault of the walk is not at the first (IP) header -/
+theorem lax_from_ip_ok_fault_unit (g : Mem) (hg : ByteMem g) (n : Nat) (m : Packet)
+    (h : laxSlicedFromIp g n = .ok m) (f : Fault)
+    (hf : (walkN true g maxSteps Packet.empty .ipAny (ctx0 n)).2 = some f) :
+    ¬ (f.unit = .ipAny ∨ f.unit = .ipv4Header ∨ f.unit = .ipv6Header) := by
+  have key := lax_from_ip_refines g hg n
+  split at key
+  · obtain ⟨⟨e, he, _⟩, _⟩ := key
+    rw [he] at h; cases h
+  · rw [h] at key
+    simp only at key
+    obtain ⟨⟨_, h2⟩, _⟩ := key
+    rw [hf] at h2
+    cases hm : m.stop with
+    | none => rw [hm] at h2; exact absurd h2 (by simp)
+    | some x =>
+      obtain ⟨e, ly⟩ := x
+      rw [hm] at h2
+      simp only at h2
+      intro hu
+      exact laxSlicedFromIp_stop_layer g n m e ly h hm (stopLayer_first ly f.unit h2.1 hu)
+
+/-- `RelLax` spelled out -/
+theorem relLax_iff (m : Packet) (s : Packet × Option Fault) :
+    RelLax m s ↔
+      (noStop m = s.1 ∧ (m.stop = none ↔ s.2 = none) ∧
+        ∀ e ly f, m.stop = some (e, ly) → s.2 = some f → StopLayer ly f.unit ∧ ErrMatch e f) := by
+  obtain ⟨p, fo⟩ := s
+  unfold RelLax StopMatch
+  cases hm : m.stop with
+  | none => cases fo <;> simp
+  | some x =>
+    obtain ⟨e, ly⟩ := x
+    cases fo <;> simp
+
+/-- `RelLaxW` spelled out -/
+theorem relLaxW_iff (g : Mem) (m : Packet) (s : Packet × Option Fault) :
+    RelLaxW g m s ↔
+      (noStop m = s.1 ∧ (m.stop = none ↔ s.2 = none) ∧
+        ∀ e ly f, m.stop = some (e, ly) → s.2 = some f →
+          (StopLayer ly f.unit ∧ ErrMatch e f) ∨ ShortV4Stop g e ly f) := by
+  obtain ⟨p, fo⟩ := s
+  unfold RelLaxW StopMatch
+  cases hm : m.stop with
+  | none => cases fo <;> simp
+  | some x =>
+    obtain ⟨e, ly⟩ := x
+    cases fo <;> simp
+
+/-- also inside the wrinkle a stop error is located where the fault is: the recorded layer names the
+    faulting unit, and a length error carries the fault's absolute offset and available bytes -/
+theorem relLaxW_located {g : Mem} {m : Packet} {s : Packet × Option Fault} (h : RelLaxW g m s)
+    (e : PErr) (ly : Layer) (f : Fault) (hm : m.stop = some (e, ly)) (hf : s.2 = some f) :
+    StopLayer ly f.unit ∧ ∀ le, e = .len le → le.off = f.off ∧ le.len = f.avail := by
+  obtain ⟨_, _, h3⟩ := (relLaxW_iff g m s).mp h
+  rcases h3 e ly f hm hf with ⟨h1, h2⟩ | h2
+  · refine ⟨h1, ?_⟩
+    rintro le rfl
+    exact ⟨h2.off, h2.len⟩
+  · obtain ⟨rfl, _, hu, _, _, _, _, h8⟩ := h2
+    refine ⟨by rw [hu]; trivial, ?_⟩
+    rintro le rfl
+    rcases h8 with ⟨_, h⟩ | ⟨_, s', _, h⟩
+    · cases h
+    · cases h; exact ⟨rfl, rfl⟩
+
 end EpModel.Lemmas.RefineLax
